@@ -223,7 +223,7 @@ func (s *seedInfo) mutate(rng *rand.Rand) ([]patch, int, string) {
 	npages := len(s.data) / s.ps
 	pick := func() *hx.WPage { return s.pages[rng.Intn(len(s.pages))] }
 	pageOff := func(p *hx.WPage) int { return (p.No - 1) * s.ps }
-	kinds := []string{"ptr", "ptr", "cellcount", "cellptr", "varint-payloadlen", "varint-rowid", "varint-hdrsize", "varint-serial", "pagetype",
+	kinds := []string{"overflow-rho", "ptr", "ptr", "cellcount", "cellptr", "varint-payloadlen", "varint-rowid", "varint-hdrsize", "varint-serial", "pagetype",
 		"master-rootpage", "master-sql", "master-type", "header", "truncate", "flip", "overflow-ptr", "overflow-ptr", "free-bytes"}
 	for tries := 0; tries < 50; tries++ {
 		kind := kinds[rng.Intn(len(kinds))]
@@ -240,6 +240,57 @@ func (s *seedInfo) mutate(rng *rand.Rand) ([]patch, int, string) {
 			}
 			c := p.Cells[rng.Intn(len(p.Cells))]
 			return []patch{{pageOff(p) + c.Off, hex.EncodeToString(u32(t))}}, -1, "child-ptr"
+		case "overflow-rho":
+			// a chain that loops back into its middle (3->4->5->4) on a cell whose declared payload
+			// length is far larger than the file, rebuilt so that the cell stays self-consistent
+			p := pick()
+			if p.Kind == 0x05 {
+				continue
+			}
+			type cand struct {
+				i int
+				c hx.WCell
+			}
+			var cands []cand
+			for i, c := range p.Cells {
+				if c.OvflOff > 0 && c.OvflOff+4 <= s.ps {
+					cands = append(cands, cand{i, c})
+				}
+			}
+			if len(cands) == 0 {
+				continue
+			}
+			cd := cands[rng.Intn(len(cands))]
+			c := cd.c
+			chain := hx.OverflowChain(s.data, s.ps, c.Overflow)
+			if len(chain) < 2 {
+				continue
+			}
+			k := 1 + rng.Intn(len(chain)-1)
+			j := rng.Intn(k + 1)
+			targets := []int64{1 << 31, 1 << 40, 1 << 62, int64(len(s.data)) * 4, int64(len(s.data)) * 1000}
+			tgt := targets[rng.Intn(len(targets))]
+			u4 := int64(s.ps - 4)
+			newP := c.PayloadLen + ((tgt-c.PayloadLen)/u4)*u4 // same K, hence the same local size
+			if newP <= c.PayloadLen {
+				continue
+			}
+			nv := varintEnc(uint64(newP))
+			po := pageOff(p)
+			var cell []byte
+			cell = append(cell, s.data[po+c.Off:po+c.PLOff]...)
+			cell = append(cell, nv...)
+			cell = append(cell, s.data[po+c.PLOff+c.PLN:po+c.OvflOff+4]...)
+			delta := len(nv) - c.PLN
+			newStart := c.Off - delta
+			if newStart < p.PtrOff+2*p.NCells {
+				continue
+			}
+			return []patch{
+				{po + newStart, hex.EncodeToString(cell)},
+				{po + p.PtrOff + 2*cd.i, hex.EncodeToString(u16(uint16(newStart)))},
+				{(chain[k] - 1) * s.ps, hex.EncodeToString(u32(uint32(chain[j])))},
+			}, -1, "overflow-rho-huge-length"
 		case "overflow-ptr":
 			p := pick()
 			var cands []hx.WCell
